@@ -26,22 +26,38 @@ variable {R : Type} [CommRing R]
 
 /-! ## bridges Gen = hand model -/
 
+/-- closes a bridge goal `Gen.f … = Brax.f …` whatever the order/association in which the traced source lists
+commutative terms: unfold, split the structure, `ring` on the components (a harmless reordering of `a + b` in the
+python source must not break a bridge) -/
+syntax "bridge" "[" Lean.Parser.Tactic.simpLemma,* "]" : tactic
+macro_rules
+  | `(tactic| bridge [$ds,*]) => `(tactic| first
+      | rfl
+      | (simp only [$ds,*]; done)
+      | (simp only [$ds,*]; ring)
+      | (simp only [$ds,*]; congr 1 <;> ring)
+      | (simp only [$ds,*]; congr 1 <;> congr 1 <;> ring)
+      | (simp only [$ds,*]; congr 1 <;> congr 1 <;> congr 1 <;> ring))
+
 theorem bridge_rotate (v : V3 R) (q : Q4 R) : Gen.rotate v q = Brax.rotate v q := by
   simp only [Gen.rotate, Brax.rotate, V3.dot, V3.cross, Q4.vec]; congr 1 <;> ring
 theorem bridge_rotateNp (v : V3 R) (q : Q4 R) : Gen.rotateNp v q = Brax.rotate v q := by
   simp only [Gen.rotateNp, Brax.rotate, V3.dot, V3.cross, Q4.vec]; congr 1 <;> ring
-theorem bridge_quatMul (u v : Q4 R) : Gen.quatMul u v = Brax.quatMul u v := rfl
-theorem bridge_quatMulNp (u v : Q4 R) : Gen.quatMulNp u v = Brax.quatMul u v := rfl
+theorem bridge_quatMul (u v : Q4 R) : Gen.quatMul u v = Brax.quatMul u v := by
+  bridge [Gen.quatMul, Brax.quatMul]
+theorem bridge_quatMulNp (u v : Q4 R) : Gen.quatMulNp u v = Brax.quatMul u v := by
+  bridge [Gen.quatMulNp, Brax.quatMul]
 theorem bridge_quatInv (q : Q4 R) : Gen.quatInv q = Brax.quatInv q := by
   simp only [Gen.quatInv, Brax.quatInv]; congr 1 <;> ring
 theorem bridge_invRotate (v : V3 R) (q : Q4 R) : Gen.invRotate v q = Brax.invRotate v q := by
   simp only [Gen.invRotate, Brax.invRotate, Brax.rotate, Brax.quatInv, V3.dot, V3.cross, Q4.vec]
   congr 1 <;> ring
-theorem bridge_angToQuat (a : V3 R) : Gen.angToQuat a = Brax.angToQuat a := rfl
+theorem bridge_angToQuat (a : V3 R) : Gen.angToQuat a = Brax.angToQuat a := by
+  bridge [Gen.angToQuat, Brax.angToQuat]
 theorem bridge_vecQuatMul (u : V3 R) (v : Q4 R) : Gen.vecQuatMul u v = Brax.vecQuatMul u v := by
-  simp only [Gen.vecQuatMul, Brax.vecQuatMul]
+  bridge [Gen.vecQuatMul, Brax.vecQuatMul]
 theorem bridge_quatMulAng (q : Q4 R) (a : V3 R) : Gen.quatMulAng q a = Brax.quatMulAng q a := by
-  simp only [Gen.quatMulAng, Brax.quatMulAng]
+  bridge [Gen.quatMulAng, Brax.quatMulAng]
 theorem bridge_relativeQuat (p q : Q4 R) : Gen.relativeQuat p q = Brax.relativeQuat p q := by
   simp only [Gen.relativeQuat, Brax.relativeQuat, Brax.quatMul, Brax.quatInv]; congr 1 <;> ring
 theorem bridge_tfDoTf (a b : Tf R) : Gen.tfDoTf a b = Tf.doTf a b := by
@@ -63,16 +79,15 @@ theorem bridge_tfDoForce (t : Tf R) (f : Force R) : Gen.tfDoForce t f = Tf.doFor
   simp only [Gen.tfDoForce, Tf.doForce, Brax.rotate, V3.dot, V3.cross, Q4.vec, V3.add_def]
   congr 1 <;> congr 1 <;> ring
 theorem bridge_motionCrossM (a b : Motion R) : Gen.motionCrossM a b = Motion.crossM a b := by
-  simp only [Gen.motionCrossM, Motion.crossM, V3.cross, V3.add_def]
+  bridge [Gen.motionCrossM, Motion.crossM, V3.cross, V3.add_def]
 theorem bridge_motionCrossF (a : Motion R) (f : Force R) :
     Gen.motionCrossF a f = Motion.crossF a f := by
-  simp only [Gen.motionCrossF, Motion.crossF, V3.cross, V3.add_def]
+  bridge [Gen.motionCrossF, Motion.crossF, V3.cross, V3.add_def]
 theorem bridge_motionDotF (m : Motion R) (f : Force R) : Gen.motionDotF m f = Motion.dotF m f := by
-  simp only [Gen.motionDotF, Motion.dotF, V3.dot]
+  bridge [Gen.motionDotF, Motion.dotF, V3.dot]
 theorem bridge_inertiaMul (it : Inertia R) (m : Motion R) :
     Gen.inertiaMul it m = Inertia.mul it m := by
-  simp only [Gen.inertiaMul, Inertia.mul, M3.mulVec, V3.dot, V3.cross, V3.smul, V3.add_def,
-    V3.sub_def]
+  bridge [Gen.inertiaMul, Inertia.mul, M3.mulVec, V3.dot, V3.cross, V3.smul, V3.add_def, V3.sub_def]
 
 /-! ## quaternions -/
 
@@ -263,7 +278,7 @@ section Field
 variable {K : Type} [Field K]
 
 theorem bridge_quatTo3x3 (q : Q4 K) : Gen.quatTo3x3 q = Brax.quatTo3x3 q := by
-  simp only [Gen.quatTo3x3, Brax.quatTo3x3]
+  bridge [Gen.quatTo3x3, Brax.quatTo3x3]
 
 theorem bridge_tfDoInertia (t : Tf K) (it : Inertia K) : Gen.tfDoInertia t it = Tf.doInertia t it := by
   simp only [Gen.tfDoInertia, Tf.doInertia, Brax.quatTo3x3, M3.mul, M3.add, M3.smul, M3.transpose,
